@@ -85,4 +85,19 @@ PROPS = {
             "fault positions are enumerated up to 40 per program",
         ],
     },
+    "C15": {
+        "quick": [
+            {"test": "TestC15Doc", "checks": 40000, "shards": 4},
+            {"test": "TestC15Spaceless", "checks": 40000, "shards": 2},
+        ],
+        "thorough": [
+            {"test": "TestC15Doc", "checks": 2400000, "shards": 12},
+            {"test": "TestC15Spaceless", "checks": 1600000, "shards": 4},
+        ],
+        "assumptions": [
+            "verbatim blocks are not generated, and {# #} comments only between two non-whitespace characters of a text (next to a marker or a block tag neither C06 nor C15 decides what 'directly' means)",
+            "template hierarchies (extends) are not generated: the option pass only rewrites the tokens of the executed template; C15 speaks about documents",
+            "spaceless: an HTML tag is '<', characters other than newline, '>' (the engine's own notion, pinned by spaceless.tpl)",
+        ],
+    },
 }
